@@ -687,6 +687,13 @@ def nat_sweep(seed, count):
                     msgs.append(f"point_density[{kern}]: not finite / negative")
                 if (Xg ** 2 + Yg ** 2).max() > 1 + 1e-12:
                     msgs.append(f"point_density[{kern}]: grid point outside the unit disk")
+                # the returned arrays are the caller's: scaling them in place must not affect later calls
+                Xk, Yk, Zk = Xg.copy(), Yg.copy(), Zg.copy()
+                Xg *= 2.0; Yg -= 3.0; Zg[:] = -1.0
+                Xn, Yn, Zn = st.point_density(data[:, 0], data[:, 1], data[:, 2], gridsteps=gs, weights=w, kernel=kern)
+                if not (np.array_equal(Xn, Xk) and np.array_equal(Yn, Yk) and np.array_equal(Zn, Zk, equal_nan=True)):
+                    msgs.append(f"point_density[{kern}]: a later call returns different grids / estimates after the caller modified the earlier result in place (shared arrays)")
+                Xg, Yg, Zg = Xk, Yk, Zk
                 want = raw / raw.mean()
                 want[want < 0] = 0
                 if not np.allclose(Zg.ravel(), want, rtol=1e-9, atol=1e-12):
